@@ -56,6 +56,7 @@ type tfield struct {
 	cfg    string // configured name ("" for inline)
 	inline bool
 	ignore bool
+	mode   string // merge option of the config tag: "" append prepend replace merge
 	vals   []vtag
 	t      *tnode
 }
@@ -267,6 +268,16 @@ func (g *tgen) scalarVals(k kind) []vtag {
 	return out
 }
 
+var tagModes = []string{"append", "prepend", "replace", "merge", "append", "prepend"}
+
+// mode draws a merge option for the config tag with probability pct/100.
+func (g *tgen) mode(pct int) string {
+	if g.r.Intn(100) < pct {
+		return tagModes[g.r.Intn(len(tagModes))]
+	}
+	return ""
+}
+
 func (g *tgen) collVals(pReq, pNonzero int) []vtag {
 	x := g.r.Intn(100)
 	switch {
@@ -309,6 +320,9 @@ func buildStruct(n *tnode) reflect.Type {
 		}
 		if f.ignore {
 			tag += ",ignore"
+		}
+		if f.mode != "" {
+			tag += "," + f.mode
 		}
 		full := `config:"` + tag + `"`
 		if len(f.vals) > 0 {
@@ -353,7 +367,12 @@ func (g *tgen) field(depth, pos int) *tfield {
 	case x < 48: // slice of scalars
 		e := scalarNode(g.scalarKind())
 		f.t = &tnode{k: kSlice, elem: e, rt: reflect.SliceOf(e.rt)}
+		if r.Intn(5) == 0 {
+			e = scalarNode(kInt)
+			f.t = &tnode{k: kSlice, elem: e, rt: tSmall, lib: "Small"}
+		}
 		f.vals = g.collVals(20, 20)
+		f.mode = g.mode(50)
 	case x < 51: // array of scalars
 		e := scalarNode(g.scalarKind())
 		n := 1 + r.Intn(3)
@@ -387,10 +406,12 @@ func (g *tgen) field(depth, pos int) *tfield {
 		f.vals = []vtag{{name: "min", param: "100"}}
 	case x < 70: // struct by value
 		f.t = g.structNode(depth + 1)
+		f.mode = g.mode(12)
 	case x < 79: // pointer to struct
 		s := g.structNode(depth + 1)
 		f.t = &tnode{k: kPtr, elem: s, rt: reflect.PtrTo(s.rt)}
 		f.vals = g.collVals(25, 0)
+		f.mode = g.mode(12)
 	case x < 83: // inline struct (generated structs only: unique names)
 		s := g.structNode(depth + 1)
 		if s.lib != "" {
@@ -408,6 +429,7 @@ func (g *tgen) field(depth, pos int) *tfield {
 		}
 		f.t = &tnode{k: kSlice, elem: e, rt: reflect.SliceOf(e.rt)}
 		f.vals = g.collVals(15, 15)
+		f.mode = g.mode(50)
 	case x < 93: // array of structs
 		s := g.structNode(depth + 1)
 		n := 1 + r.Intn(2)
@@ -421,6 +443,7 @@ func (g *tgen) field(depth, pos int) *tfield {
 		}
 		f.t = &tnode{k: kMap, elem: e, rt: reflect.MapOf(tString, e.rt)}
 		f.vals = g.collVals(15, 15)
+		f.mode = g.mode(12)
 	}
 	return f
 }
